@@ -58,7 +58,9 @@ def buildChain (b : B) (kind : String) (n base : Nat) : B × Nat := Id.run do
   let mut top := leaf
   for i in [0:n] do
     -- the python side wraps from the inside out with n, n-1, …: level j (1-based from the inside) uses index (n - j + 1)
-    let k := if kind == "mixed" then mixKinds[(n - i) % mixKinds.size]! else kind
+    let alts := if kind.startsWith "alt:" then ((kind.drop 4).toString.splitOn "+").toArray else #[]
+    let k := if kind == "mixed" then mixKinds[(n - i) % mixKinds.size]!
+             else if alts.size > 0 then alts[(n - i) % alts.size]! else kind
     let (c, t) := level cur k top aux
     cur := c
     top := t
@@ -192,10 +194,33 @@ def buildShape (shape : String) (n : Nat) : Graph × Nat × Nat :=
     let (b2, b) := buildDag b1 n 0
     (b2.g, a, b)
   else if shape.startsWith "ring:" then
-    let cells := parseCells (shape.drop 5).toString
-    let (b1, a) := buildRing {} cells
-    let (b2, b) := buildRing b1 cells
-    (b2.g, a, b)
+    let spec := (shape.drop 5).toString
+    let (cellsS, outer) := match spec.splitOn "@" with
+      | [c, o] => (c, o)
+      | _ => (spec, "")
+    let cells := parseCells cellsS
+    let wrap (b : B) (base entry : Nat) : B × Nat :=
+      if outer == "" then (b, entry)
+      else
+        -- the value held by cell 0 (what its slot points to), wrapped in the outer container
+        let content := ((b.g.getD (base + 1) { kind := .leaf }).kids).headD entry
+        match outer with
+        | "mvec" => b.add { kind := .mvec, kids := [content] }
+        | "ivec" => b.add { kind := .vec, kids := [content] }
+        | "list" => b.add { kind := .list, kids := [content] }
+        | "box" => b.add { kind := .box, kids := [content] }
+        | "sbox" => b.add { kind := .sbox, kids := [content] }
+        | "mstruct" =>
+          let (b1, bx) := b.add { kind := .box, kids := [content] }
+          b1.add { kind := .struct, tag := 2, kids := [bx] }
+        | _ => b.add { kind := .list, kids := [content] }
+    let base1 := 0
+    let (b1, a0) := buildRing {} cells
+    let (b1', a) := wrap b1 base1 a0
+    let base2 := b1'.g.size
+    let (b2, b0) := buildRing b1' cells
+    let (b2', b) := wrap b2 base2 b0
+    (b2'.g, a, b)
   else
     let kind := (shape.drop 6).toString
     let (b1, a) := buildChain {} kind n 0
@@ -246,6 +271,13 @@ def predictAll (c : Cfg) (shape : String) : List Pred := Id.run do
   out := out ++ [roundPred "drop" (fun _ => "-") fun g a _ fuel =>
     (iterCount (dropStep g) fuel 0 { work := [a], rc := initRc g a, freed := [] }).map (·.2)]
   return out
+
+def scannedCfgD : Cfg :=
+  { eqBoxVisited := Gen.eqBoxVisited, eqMixVecVisited := Gen.eqMixVecVisited, eqKeysIterative := Gen.eqKeysIterative,
+    markSboxVisited := Gen.markSboxVisited, markImmVisited := Gen.markImmVisited, ccSboxMutable := Gen.ccSboxMutable,
+    ccTracksAlways := Gen.ccTracksAlways, hashIterative := Gen.hashIterative, hashCycleSafe := Gen.hashCycleSafe,
+    printBoxNoReentry := Gen.printBoxNoReentry, printMapNoReentry := Gen.printMapNoReentry,
+    dropPairSetIterative := Gen.dropPairSetIterative, dropClosureBoxIterative := Gen.dropClosureBoxIterative }
 
 /-! ## S: the printed text -/
 
